@@ -336,53 +336,125 @@ def PipeRecords(tasks):
 
 # ---------------------------------------------------------------------------
 # Compile-only, every dialect: statement for the marker vs statement for s.
+# One program holds the marker predicate M and one predicate per string, all
+# of the same shape; in ctx "nested" every predicate has a second rule so that
+# its SELECT becomes a member of a UNION ALL subquery.
 
-def _CompileOne(engine, pos, ctx, lit, value):
+def _SqlRules(pos, ctx, name, flag, lit):
+  head = (name + '(%s)') if ctx == 'top' else (name + '(i: 0, v: %s)')
+  body = {
+      'fact': head % lit + ';',
+      'list': head % 'x' + ' :- x in [%s];' % lit,
+      'record': head % ('{f: %s}' % lit) + ';',
+      'concat': head % ('"a" ++ %s ++ "a"' % lit) + ';',
+      'default': '@DefineFlag("%s", %s);\n' % (flag, lit) +
+                 head % ('FlagValue("%s")' % flag) + ';',
+      'user': '@DefineFlag("%s", "a");\n' % flag +
+              head % ('FlagValue("%s")' % flag) + ';',
+  }[pos]
+  if ctx == 'nested':
+    body += '\n%s(i: -1, v: %s);' % (name, '{f: "a"}' if pos == 'record'
+                                     else '"a"')
+  return body
+
+
+def SqlProgram(engine, pos, ctx, lits):
+  lines = ['@Engine("%s");' % engine,
+           _SqlRules(pos, ctx, 'M', 'fm', '"%s"' % MARKER)]
+  for i, lit in enumerate(lits):
+    lines.append(_SqlRules(pos, ctx, 'P%d' % i, 'fp%d' % i, lit))
+  return '\n'.join(lines) + '\n'
+
+
+def _SqlBatch(d, pos, ctx, lits, values):
+  """-> [(status, sql, detail)], ref, at, len   or None (caller isolates)."""
   m = impl.Mods()
-  text = ProgramFor(engine, pos, ctx, [lit])
-  rules = m['parse'].ParseFile(text)['rule']
-  user_flags = {}
-  if pos == 'user':
-    user_flags = ReadUserFlags(rules, [('fu0', value)])
-  program = m['universe'].LogicaProgram(rules, user_flags=user_flags)
-  return program.FormattedPredicateSql('P0' if ctx == 'top' else 'P')
-
-
-_ref_cache = {}
-
-
-def _SqlTask(task):
-  d, pos, ctx, form, s = task
-  key = (d, pos, ctx)
-  err = io.StringIO()
-  with contextlib.redirect_stderr(err), contextlib.redirect_stdout(err):
-    if key not in _ref_cache:
-      ref = _CompileOne(d, pos, ctx, '"%s"' % MARKER, MARKER)
-      mk = EmitLiteral(d, MARKER)
-      if ref.count(mk) != 1:
-        raise RuntimeError('marker literal occurs %d times for %r' % (
-            ref.count(mk), key))
-      _ref_cache[key] = (ref, ref.index(mk) + 1, len(mk))
-    ref, at, ln = _ref_cache[key]
-    written = s if pos == 'user' else Render(form, s)
-    rec = {'k': 'sql', 'd': d, 'pos': pos, 'ctx': ctx, 'form': form,
-           'lit': Cps(written), 'ref': Cps(ref), 'at': at, 'len': ln,
-           '_key': s,
-           'id': 's:%s:%s:%s:%s:%s' % (d, pos, ctx, form,
-                                       json.dumps(Cps(written)))}
+  text = SqlProgram(d, pos, ctx, lits)
+  try:
+    rules = m['parse'].ParseFile(text)['rule']
+    user_flags = {}
+    if pos == 'user':
+      user_flags = ReadUserFlags(
+          rules, [('fm', MARKER)] + [('fp%d' % i, v)
+                                     for i, v in enumerate(values)])
+    program = m['universe'].LogicaProgram(rules, user_flags=user_flags)
+  except BaseException as e:  # pylint: disable=broad-except
+    if isinstance(e, KeyboardInterrupt):
+      raise
+    if len(lits) > 1:
+      return None
+    return ([(_Status(e), '', '%s: %s' % (type(e).__name__,
+                                          impl.ExcText(e)[:300]))], '', 1, 0)
+  ref = program.FormattedPredicateSql('M')
+  mk = EmitLiteral(d, MARKER)
+  if ref.count(mk) != 1:
+    raise RuntimeError('marker literal occurs %d times for %r' % (
+        ref.count(mk), (d, pos, ctx)))
+  res = []
+  for i in range(len(lits)):
     try:
-      sql = _CompileOne(d, pos, ctx, '"a"' if pos == 'user' else written, s)
-      rec.update(status='ok', sql=Cps(sql))
+      res.append(('ok', program.FormattedPredicateSql('P%d' % i), ''))
     except BaseException as e:  # pylint: disable=broad-except
       if isinstance(e, KeyboardInterrupt):
         raise
-      rec.update(status=_Status(e), sql=[],
-                 detail='%s: %s' % (type(e).__name__, impl.ExcText(e)[:300]))
-  return rec
+      res.append((_Status(e), '', '%s: %s' % (type(e).__name__,
+                                              impl.ExcText(e)[:300])))
+  return res, ref, ref.index(mk) + 1, len(mk)
+
+
+def _SqlTask(task):
+  d, pos, ctx, form, strings = task
+  if pos == 'user':
+    lits, values = ['"a"'] * len(strings), strings
+  else:
+    lits, values = [Render(form, s) for s in strings], [None] * len(strings)
+  err = io.StringIO()
+  with contextlib.redirect_stderr(err), contextlib.redirect_stdout(err):
+    out = _SqlBatch(d, pos, ctx, lits, values)
+    if out is None:
+      parts = [_SqlBatch(d, pos, ctx, [l], [v]) for l, v in zip(lits, values)]
+    else:
+      parts = [([r], out[1], out[2], out[3]) for r in out[0]]
+  recs = []
+  for s, l, (res, ref, at, ln) in zip(strings, lits, parts):
+    st, sql, detail = res[0]
+    written = s if pos == 'user' else l
+    rec = {'k': 'sql', 'd': d, 'pos': pos, 'ctx': ctx, 'form': form,
+           'lit': Cps(written), 'ref': Cps(ref), 'at': at, 'len': ln,
+           'status': st, 'sql': Cps(sql), '_key': s,
+           'id': 's:%s:%s:%s:%s:%s' % (d, pos, ctx, form,
+                                       json.dumps(Cps(written)))}
+    if detail:
+      rec['detail'] = detail
+    recs.append(rec)
+  return recs
+
+
+def SqlTasks(strings, batch, dialects=None):
+  tasks = []
+  for d in dialects or DIALECTS:
+    for pos in POSITIONS:
+      for ctx in ('top', 'nested'):
+        by_form = {}
+        for s in strings:
+          form = 'argv' if pos == 'user' else PrimaryForm(s)
+          by_form.setdefault(form, []).append(s)
+        for form, sel in sorted(by_form.items()):
+          for i in range(0, len(sel), batch):
+            tasks.append((d, pos, ctx, form, sel[i:i + batch]))
+  return tasks
 
 
 def SqlRecords(tasks):
-  return common.ParallelMap(_SqlTask, tasks, chunksize=4)
+  out = []
+  for part in common.ParallelMap(_SqlTask, tasks, chunksize=1):
+    out.extend(part)
+  return out
+
+
+def PrimaryForm(s):
+  """The documented "..." form when it can carry s, else '...' (escapes)."""
+  return 'dq' if CanWrite('dq', s) else 'sq'
 
 
 # ---------------------------------------------------------------------------
